@@ -342,7 +342,11 @@ class CalSim:
         self.learn_log = []
 
     # ---- seam callbacks -------------------------------------------------------------------
+    _prelude = False
+
     def on_dispatch(self, k, func, args, kwargs):
+        if self._prelude:
+            return -1
         idx = self.n_model
         self.n_model += 1
         theta = np.array(args[0], copy=True) if args else None
@@ -359,6 +363,8 @@ class CalSim:
         return idx
 
     def run_task(self, idx, func, args, kwargs):
+        if self._prelude:
+            return func(*args, **kwargs)
         f = self.fault_idx.get(("model", idx))
         if f is not None:
             self.fired.append(f)
@@ -370,6 +376,8 @@ class CalSim:
         return func(*args, **kwargs)
 
     def on_complete(self, idx, k, res):
+        if self._prelude:
+            return res
         if self.cur is not None:
             for c in self.cur.calls:
                 if c[0] == idx:
@@ -637,6 +645,29 @@ class CalSim:
         self._check_prefix("calibrate-end")
         return res
 
+    def run_prelude(self, seed):
+        """process history: an unrelated small calibration (other dimensions, stateful samplers) runs to completion in this
+        process before the one under observation is even built"""
+        from black_it.calibrator import Calibrator
+        prng = random.Random(seed)
+        dims = prng.randint(1, 3)
+        cfg = {"space": gen_space(prng, dims), "lineup": [gen_sampler_spec(prng, k, 2) for k in ("halton", "rseq", "pso", "bestbatch")],
+               "scheduler": {"kind": "rr"}, "loss": {"cls": "minkowski", "opts": {}}, "model": {"kind": "gauss", "D": 1, "extreme": 0.0},
+               "N": 8, "sim_length": None, "real_seed": 1, "ensemble": 1, "cal_seed": prng.randrange(2 ** 31), "convergence_precision": None}
+        keep_model = self.model
+        cal = self.build(cfg, folder=None)
+        saved, self.cal = self.cal, None          # seam recorders ignore the prelude
+        self._prelude = True
+        try:
+            cal.calibrate(4)
+        except Exception:  # noqa: BLE001
+            pass
+        finally:
+            self._prelude = False
+        self.cal = saved
+        self.model = keep_model
+        self.stats["prelude-calibrations"] += 1
+
     def completed_batches(self, cal=None):
         """Batch records whose rows are in the history (the last record per starting row wins)."""
         cal = cal or self.cal
@@ -656,6 +687,8 @@ class CalSim:
             warnings.simplefilter("ignore")
             self.install()
             try:
+                if self.env.get("prelude"):
+                    self.run_prelude(self.env["prelude"])
                 if self.env["folder"]:
                     self.folder = self.new_folder()
                 self.cal = self.build(folder=self.folder)
